@@ -1,5 +1,5 @@
 """Native triage of the refutations of contracts/c02_partfiles.py on the unchanged tree (runs the REAL functions on the counter-models).
-   partf_native.py            -> prints one line per finding, exit 0 if every one reproduces"""
+   partf_native.py            -> prints one line per finding (REPRODUCED) / repaired defect (REPAIRED), exit 0 if every one is as recorded"""
 import io, os, shutil, sys, tempfile
 sys.path.insert(0, os.environ.get("VERIF_REPO", "/repo"))
 import pandas as pd
@@ -79,24 +79,42 @@ def mpf_nofmd(d):
 case("make_part_file(f, df, schema) with the default fmd=None", mpf_nofmd, lambda g: g[0] == "TypeError" and g[3] > 4)
 
 
-# C02-P-summary-file-truncated-before-key-value-check: a key-value entry whose value is not text when the summary is rewritten
-def trunc(d):
-    write(d, df, file_scheme="hive")
-    before = os.path.getsize(d + "/_metadata")
-    pf = ParquetFile(d)
-    writer.update_custom_metadata(pf, {"k": 5})
-    try:
-        pf._write_common_metadata()
-    except TypeError as e:
-        after = open(d + "/_metadata", "rb").read()
+# fixed-C02-summary-truncated-before-validation (4f80931): a key-value entry whose value is not text when the summary is rewritten is
+# refused BEFORE the summary file is opened: _metadata keeps its bytes and the dataset still opens (before the fix: b'PAR1', unopenable)
+def trunc(how):
+    def run(d):
+        write(d, df, file_scheme="hive", row_group_offsets=[0, 3])
+        before = open(d + "/_metadata", "rb").read()
+        files = ls(d)
+        pf = ParquetFile(d)
+        writer.update_custom_metadata(pf, {"k": 5})
         try:
-            ParquetFile(d)
-            reopen = "opens"
-        except Exception as e2:
-            reopen = "does not open: " + type(e2).__name__
-        return ("TypeError", str(e), "before", before, "after", after, reopen)
-    return ("no exception",)
+            how(pf)
+        except TypeError as e:
+            after = open(d + "/_metadata", "rb").read()
+            try:
+                rows = len(ParquetFile(d).to_pandas())
+            except Exception as e2:
+                rows = "does not open: " + type(e2).__name__
+            return ("TypeError", str(e), "summary unchanged", after == before, "bytes", len(after), "rows read", rows, "files kept", ls(d) == files)
+        return ("no exception",)
+    return run
 
 
-case("update_custom_metadata(pf, {'k': 5}); pf._write_common_metadata()", trunc, lambda g: g[0] == "TypeError" and g[5] == b"PAR1")
+def repaired(title, fn, expect):
+    global ok
+    d = tempfile.mkdtemp(prefix="partf-native-")
+    try:
+        got = fn(d)
+    finally:
+        shutil.rmtree(d, ignore_errors=True)
+    good = expect(got)
+    ok = ok and good
+    print(("REPAIRED " if good else "STILL BROKEN ") + title + " -> " + str(got))
+
+
+repaired("update_custom_metadata(pf, {'k': 5}); pf._write_common_metadata()", trunc(lambda pf: pf._write_common_metadata()),
+         lambda g: g[0] == "TypeError" and g[3] is True and g[7] == 5 and g[9] is True)
+repaired("update_custom_metadata(pf, {'k': 5}); pf.write_row_groups([])", trunc(lambda pf: pf.write_row_groups([])),
+         lambda g: g[0] == "TypeError" and g[3] is True and g[7] == 5 and g[9] is True)
 sys.exit(0 if ok else 1)
